@@ -9,6 +9,7 @@ import (
 	"go/token"
 	"go/types"
 	"os"
+	"regexp"
 	"sort"
 	"strings"
 )
@@ -62,6 +63,8 @@ func fieldOfSrc(src string) (string, string) {
 }
 
 func runC05(w *World, r *Report) {
+	r.Rule("selfdecode", "a dispatcher returns only values its own decoder filled from the input", 20)
+	selfDecodeRule(w, r, "selfdecode")
 	r.Rule("oxmcodes", "every class/field number a match-field constructor stores has a decoding case in the match-field dispatcher", 30)
 	{
 		r2 := NewReport(r.Prop, r.Tier)
@@ -507,8 +510,19 @@ func mirrorKind(w *World, r *Report, k *Kind, efi, dfi *FuncInfo) {
 		if len(writesOf(rm.field)) == 0 {
 			// the field may be written as part of a packed expression (local source): look for any write at the offset
 			packed := false
+			computed := ""
 			for _, wm := range W {
 				if wm.off.Equal(rm.off) && (wm.local || wm.kind == "packed") {
+					// a value computed from other parts of the receiver (the size of the payload written where
+					// the decoder finds a stored field) is not that field packed with others
+					if wm.kind != "packed" && strings.Contains(wm.raw, "$.") && !mentionsField(wm.raw, rm.field) {
+						if specDerived(k.Name, wm.off.String(), wm.raw) {
+							packed = true // the specification defines this wire field as that derived length
+							continue
+						}
+						computed = wm.raw
+						continue
+					}
 					packed = true
 				}
 				// a read inside the window of a packed word (the 32-bit OXM header): the lanes rule of C15
@@ -520,9 +534,47 @@ func mirrorKind(w *World, r *Report, k *Kind, efi, dfi *FuncInfo) {
 				r.OK("mirror", k.Name, inst, w.Pos(rm.pos), fmt.Sprintf("offset %v is packed from several fields on the encoder side (bit-lane rule)", rm.off), false)
 				continue
 			}
+			if computed != "" {
+				r.Fail(VViolation, "mirror", k.Name, inst, w.Pos(rm.pos), fmt.Sprintf("the decoder fills %s from offset %v, where the encoder writes %s, a value computed from other parts of the message: a decoded value whose field differs from that (a total length larger than the carried bytes) is not reproduced", rm.field, rm.off, computed))
+				continue
+			}
 			r.Fail(VViolation, "mirror", k.Name, inst, w.Pos(rm.pos), fmt.Sprintf("the decoder fills %s from offset %v, but the encoder never writes that field: a round trip does not reproduce the bytes", rm.field, rm.off))
 		}
 	}
+}
+
+var layoutCache map[string]*Layout
+
+// specDerived: the layout table of the kind puts exactly this computed source at this offset.
+func specDerived(kind, off, src string) bool {
+	if layoutCache == nil {
+		layoutCache, _ = loadLayouts()
+		if layoutCache == nil {
+			layoutCache = map[string]*Layout{}
+		}
+	}
+	t := layoutCache[kind]
+	if t == nil {
+		return false
+	}
+	for _, row := range t.Fields {
+		if row[0] == off && row[2] == src {
+			return true
+		}
+	}
+	return false
+}
+
+var recvPathRE = regexp.MustCompile(`\$(\.[A-Za-z0-9_]+)+`)
+
+// mentionsField: the rendered source names the field, a part of it, or a structure it is part of.
+func mentionsField(raw, field string) bool {
+	for _, p := range recvPathRE.FindAllString(raw, -1) {
+		if p == field || strings.HasPrefix(field, p+".") || strings.HasPrefix(p, field+".") {
+			return true
+		}
+	}
+	return false
 }
 
 func orderName(o string) string {
@@ -1327,6 +1379,107 @@ func trailingRule(w *World, r *Report) {
 		})
 		if !bad {
 			r.OK("trailing", dfi.Key, "", w.Pos(dfi.Decl.Pos()), "no equality test on the input length", false)
+		}
+	}
+}
+
+// selfDecodeRule: a dispatcher (a function that takes the input bytes and hands back a decoded message or
+// element, possibly with an error) returns only values on which it ran that value's own decoder. A value
+// assembled by hand from parts of an earlier decode (an error message wrapped into an experimenter error
+// without decoding the frame as one) does not hold what its decoder would have put there, and its encoder
+// does not reproduce the frame.
+func selfDecodeRule(w *World, r *Report, rule string) {
+	for _, key := range w.sortedFuncKeys() {
+		fi := w.Funcs[key]
+		if fi.Decl.Body == nil || fi.Pkg.Name == "protocol" || fi.Pkg.Name == "util" {
+			continue
+		}
+		sig := fi.Obj.Type().(*types.Signature)
+		if sig.Results().Len() != 2 || !isErrorType(sig.Results().At(1).Type()) {
+			continue // a helper that only allocates by code (no error result) leaves the decoding to its caller
+		}
+		hasBytes := false
+		for i := 0; i < sig.Params().Len(); i++ {
+			if isByteSlice(sig.Params().At(i).Type()) {
+				hasBytes = true
+			}
+		}
+		if !hasBytes {
+			continue
+		}
+		rt := sig.Results().At(0).Type()
+		if _, isIface := rt.Underlying().(*types.Interface); !isIface {
+			continue // constructors from bytes return their own concrete kind
+		}
+		if isErrorType(rt) {
+			continue
+		}
+		fs := w.Interpret(fi, "decode")
+		if fs == nil {
+			continue
+		}
+		decoded := map[string]bool{}
+		for _, c := range fs.Calls {
+			if c.Callee == nil {
+				continue
+			}
+			switch c.Callee.Name() {
+			case "UnmarshalBinary", "Read", "Decode":
+			default:
+				continue
+			}
+			switch v := c.Recv.(type) {
+			case ObjV:
+				decoded[v.Path] = true
+			case AltV:
+				for _, o := range v.Alts {
+					decoded[o.Path] = true
+				}
+			case MaybeV:
+				decoded[v.V.Path] = true
+			}
+		}
+		seen := map[string]bool{}
+		perKind := map[string]int{}
+		check := func(o ObjV, pos token.Pos) {
+			if !isLocalObj(o.Path) || seen[o.Path] {
+				return
+			}
+			seen[o.Path] = true
+			kname := "value"
+			if k := w.KindOfType(o.Type); k != nil {
+				kname = k.Name
+				if k.Unmarshal == nil {
+					return
+				}
+			} else {
+				return
+			}
+			perKind[kname]++
+			inst := kname
+			if perKind[kname] > 1 {
+				inst = fmt.Sprintf("%s#%d", kname, perKind[kname])
+			}
+			if decoded[o.Path] {
+				r.OK(rule, fi.Key, inst, w.Pos(pos), "the returned "+kname+" was filled by its own decoder", true)
+			} else {
+				r.Fail(VViolation, rule, fi.Key, inst, w.Pos(pos), "returns a "+kname+" on which its decoder was never run: the value is assembled by hand, so it does not hold what decoding the frame as "+kname+" yields and its encoding does not reproduce the frame")
+			}
+		}
+		for _, rt := range fs.Rets {
+			if rt.IsErr || len(rt.Vals) == 0 {
+				continue
+			}
+			switch v := rt.Vals[0].(type) {
+			case ObjV:
+				check(v, rt.Pos)
+			case AltV:
+				for _, o := range v.Alts {
+					check(o, rt.Pos)
+				}
+			case MaybeV:
+				check(v.V, rt.Pos)
+			}
 		}
 	}
 }
